@@ -119,6 +119,8 @@ func VerifyFunc(prog *Program, pk *Pkg, fc *FuncContract, tier string) (rep *Fun
 	c.tier = tier
 	c.fnName = rep.Name
 	c.fc = fc
+	c.declBool = fc.Opts["decl-pc"] != ""
+	c.sliceQueries = c.declBool
 	c.fdecl = fd
 	rep.Ctx = c
 	defer func() {
